@@ -163,12 +163,13 @@ def run_poly(job, n, G, E, tab, outl=False, workers=4):
     return out, r
 
 
-def part_poly(ck, n, G, D, m, seed, maxe, label, fft=False):
+def part_poly(ck, n, G, D, m, seed, maxe, label, fft=False, tab=None):
     """Monomial weights c*B^e with B = 10^-m; the tree has D identical sample rows (TLC computes one)."""
     from phyclone.data.base import DataPoint
 
     rs = np.random.RandomState(777 + seed + G)
-    tab = [[[(int(rs.randint(1, 4)), int(rs.randint(0, maxe + 1))) for k in range(G)]] for d in range(n)]
+    if tab is None:
+        tab = [[[(int(rs.randint(1, 4)), int(rs.randint(0, maxe + 1))) for k in range(G)]] for d in range(n)]
     E = sum(max(e for (_, e) in tab[d][0]) for d in range(n))
     oracle, r = run_poly("c02_poly_%s" % label, n, G, E, tab)
     ck.add_tlc("PolyOracle N=%d G=%d E=%d (B=1e-%d) %s" % (n, G, E, m, label), r)
@@ -192,9 +193,14 @@ def part_poly(ck, n, G, D, m, seed, maxe, label, fft=False):
             ck.violation("C02|poly|%s|not_finite" % label, "data_log_likelihood not finite / wrong shape for %s" % absstate.key_str(key), rep)
             continue
         exact = np.array([poly_log(z, m) for z in oracle[key]["Z"]]) - (K + 1) * math.log(G)
-        # upper bound (in logs) of any children's peak product inside this tree
-        ids = set().union(*key[0])
-        ub = sum(rowmax[d] for d in ids) + K * math.log(G) - (K + 1) * math.log(G)
+        # the property's floor: 1e-100 of the children's peak product - for the virtual root the product of the exact
+        # peaks of the top-level clones' vectors (TLC's exact polynomials); 5 nats of margin
+        roots = [c for c in key[0] if not any(c < d for d in key[0])]
+        peak_prod = 0.0
+        for c in roots:
+            size_c = sum(1 for x in key[0] if x <= c)
+            peak_prod += max(poly_log(z, m) for z in oracle[key]["R"][c]) - size_c * math.log(G)
+        ub = peak_prod - math.log(G) + 5.0
         peak = float(np.max(exact))
         for i in range(D):
             for k in range(G):
@@ -256,6 +262,44 @@ def part_large(ck, G, seed):
                 G, absstate.key_str(key), dev, "FFT" if G >= 1000 else "direct"), rep)
 
 
+def part_many_children(ck, seed):
+    """Clones (and the virtual root) with 6-9 children - more than any forest on 5 points has: stars of top-level clones
+    and one clone above many children, TLC evaluating the proved recursion exactly (GridRec.tla) on a 4-point grid."""
+    G = 4
+    n = 10
+    rs = np.random.RandomState(31 + seed)
+    tab = rs.randint(1, 6, size=(n, 1, G))
+    shapes = []
+    for k in (6, 7, 9):
+        shapes.append([[i] for i in range(k)])                                   # k top-level clones
+    for k in (6, 7, 8):
+        shapes.append([list(range(k + 1))] + [[i] for i in range(1, k + 1)])      # clone 0 above k children
+    shapes.append([list(range(10)), [1, 2, 3, 4, 5, 6, 7], [2], [3], [4], [5], [6], [7], [8], [9]])   # 3 children, one of them with 6
+    tla_shapes = ", ".join("{%s}" % ", ".join("{%s}" % ", ".join(map(str, c)) for c in f) for f in shapes)
+    mc = ("---- MODULE MC_Many ----\nEXTENDS GridRec, Json\nLDef == %s\nShapes == {%s}\n"
+          "ASSUME \\A F \\in Shapes : PrintT(ToJson([f |-> F, Z |-> ZRecT(F, LDef, 1, %d)]))\n"
+          "VARIABLE x\nInit == x = 0\nNext == UNCHANGED x\n====\n") % (gridoracle.tla_tab(tab), tla_shapes, G)
+    r = tlc.run_tlc("c02_many", "MC_Many", tlc.cfg_text(), mc_text=mc, workers=1, timeout=1500)
+    tlc.require_ok(r, "many children")
+    ck.add_tlc("GridRec recursion on %d shapes with 6-9 children per node (G=%d)" % (len(shapes), G), r)
+    data = gridoracle.data_from_tables(tab)
+    clear_caches()
+    for rec in r.json_prints:
+        key = absstate.canon({"f": rec["f"], "o": []})
+        ids = sorted(absstate.data_ids(key))
+        K = len(key[0])
+        tree = absstate.build(key, [dp for dp in data if dp.idx in ids])
+        got = tree.data_log_likelihood[0]
+        exact = np.log(np.array(rec["Z"], dtype=float)) - (K + 1) * math.log(G)
+        ck.evaluations += 1
+        ck.traces_validated += 1
+        ck.nontrivial("many:%s" % absstate.key_str(key))
+        if not np.all(np.isfinite(got)) or float(np.max(np.abs(got - exact))) > 1e-9 * (1 + float(np.max(np.abs(exact)))):
+            ck.violation("C02|many_children|entry", "%s (a node with %d children): root vector deviates from the exact marginal by %.3g" % (
+                absstate.key_str(key), max(len([c for c in key[0] if c < p and not any(c < q < p for q in key[0])]) for p in list(key[0]) + [frozenset(range(100))]),
+                float(np.max(np.abs(got - exact)))), {"state": absstate.to_json(key), "tab_seed": 31 + seed})
+
+
 def run(corrupt=None):
     ck = Check("C02")
     env.use_repo()
@@ -271,6 +315,11 @@ def run(corrupt=None):
     # wide dynamic range, direct path
     part_poly(ck, 3, 5, 2, 40, seed, 2, "G5_B1e-40")
     part_poly(ck, 3, 4, 1, 12, seed, 3, "G4_B1e-12")
+    # a parent whose own data favour the lowest grid point by 276 nats above two children that need the upper points:
+    # convolution entries between 1e-308 and 1e-100 of the children's peak decide the parent's (and the root's) vector
+    steep = [[[(1, 0), (1, 3), (1, 3), (1, 3), (1, 3)]], [[(1, 3), (1, 3), (2, 0), (1, 0), (3, 0)]], [[(1, 3), (2, 3), (1, 0), (2, 0), (1, 0)]]]
+    part_poly(ck, 3, 5, 2, 40, seed, 3, "steep_parent_B1e-40", tab=steep)
+    part_many_children(ck, seed)
     # grid < 1000 but samples*grid >= 1000: still the direct path
     part_poly(ck, 2, 101, 10, 30, seed, 2, "G101xD10_B1e-30")
     if thorough:
